@@ -1784,8 +1784,7 @@ Print Assumptions C02_join_file_any.
    fixpoint; RC8_step_file_path adds quirks pathname and Url::set_path (file_path_op) on file records.
    STILL OUTSIDE ReachC8 and inside Reachable4: on file records path_segments_mut sessions and Url::set_path with an
    argument without leading slash on a record without a host (on file records the host setters with an argument are
-   outside Reachable4 itself: Known_F_C02_4); joins of a no-scheme or same-special-scheme reference against a Reachable4 base that is not in
-   ReachC8; the steps from Reachable4 records that are not in ReachC8. *)
+   outside Reachable4 itself: Known_F_C02_4); what lies behind these open steps. *)
 Theorem C02_reach_partial8 : forall dbg hp hpo hd, HostOK2 hp hpo hd -> host_nonempty hp hpo -> host_no_wdl hp hd -> forall u,
   ReachC8 dbg hp hpo hd u ->
   Fixpoint_of_reparse dbg hp hpo hd u /\ wf_b u = true /\ ascii (ser u).
@@ -1799,6 +1798,14 @@ Theorem C02_reach_partial8_in_statement : forall dbg hp hpo hd, HostOK2 hp hpo h
   forall u, ReachC8 dbg hp hpo hd u -> Reachable4 dbg hp hpo hd u.
 Proof. exact ReachC8_Reachable4. Qed.
 Print Assumptions C02_reach_partial8_in_statement.
+
+(* ReachC8 is closed under the WHOLE join constructor of Reachable4: every join from a ReachC8 record whose result is
+   outside Known_file_drive is a ReachC8 record (so the gap to Reachable4 lies in R4_step only) *)
+Theorem C02_reach_partial8_join_closed : forall dbg hp hpo hd, HostOK2 hp hpo hd -> host_nonempty hp hpo -> host_no_wdl hp hd ->
+  forall ovr b input u, ReachC8 dbg hp hpo hd b -> usv_list input ->
+  parse_url dbg hp hpo hd ovr (Some b) input = POk u -> Known_file_drive u = false -> ReachC8 dbg hp hpo hd u.
+Proof. exact ReachC8_join_closed. Qed.
+Print Assumptions C02_reach_partial8_join_closed.
 
 Theorem C02_reach_partial8_extends : forall dbg hp hpo hd, HostOK2 hp hpo hd -> host_nonempty hp hpo -> host_no_wdl hp hd ->
   forall u, ReachC7 dbg hp hpo hd u -> ReachC8 dbg hp hpo hd u.
